@@ -15,6 +15,7 @@ import (
 )
 
 type VC struct {
+	Owner string
 	Decls []string
 	Hyps  []string
 	Goal  string
@@ -59,6 +60,7 @@ type Engine struct {
 	goSites       map[string][]*ssa.Go
 	forms         []rawForm
 	rebound       map[string]string
+	lemmaSelf     map[string]string // lemma obligation owner -> its own axiom text (excluded from its own proof)
 	nonNilGlobals map[string]bool
 	loaded        []*packages.Package
 	declared      map[string]bool
@@ -87,6 +89,19 @@ func (fx *FuncExec) modified(key string) bool {
 	}
 	for p := range fx.modKeys {
 		if key == p || strings.HasPrefix(key, p+".") || strings.HasPrefix(key, p+"#") {
+			return true
+		}
+	}
+	return false
+}
+
+// touches reports whether any key the function may write overlaps the key prefix p.
+func (fx *FuncExec) touches(p string) bool {
+	if fx.modAll {
+		return true
+	}
+	for k := range fx.modKeys {
+		if k == p || strings.HasPrefix(k, p+".") || strings.HasPrefix(k, p+"#") || strings.HasPrefix(p, k+".") || strings.HasPrefix(p, k+"#") {
 			return true
 		}
 	}
@@ -197,7 +212,7 @@ func (e *Engine) oblige(fx *FuncExec, st *State, class, key, goal, desc string, 
 		e.obls[name] = ob
 		e.oblOrder = append(e.oblOrder, name)
 	}
-	vc := &VC{Decls: append([]string(nil), st.decls...), Hyps: append([]string(nil), st.pc...), Goal: goal, Trace: fmt.Sprint(st.trace)}
+	vc := &VC{Owner: fx.name, Decls: append([]string(nil), st.decls...), Hyps: append([]string(nil), st.pc...), Goal: goal, Trace: fmt.Sprint(st.trace)}
 	if goal == "true" {
 		vc.Result = "unsat"
 		vc.Solver = "trivial"
